@@ -54,6 +54,8 @@ def gen(prop, stream, tier, avoid):
             op["c"] = rng.pick([2.0, 0.5, 4.0, 0.25])
         elif k == "reassign":
             op["view"] = rng.pick(["ctrlpts", "weights", "ctrlptsw"])
+            # read / edit one entry of the returned list in place / write back (w = c.weights; w[i] = x; c.weights = w)
+            op["edit"] = rng.randrange(64) if rng.chance(0.6) else None
         elif k == "grid":
             op["g"] = rng.weighted([("generate", 2), ("weight_list", 3), ("weight_scalar", 1), ("read", 4), ("reset", 0.5)])
             op["nu"], op["nv"] = rng.randint(1, 4), rng.randint(1, 4)
@@ -206,8 +208,25 @@ def run(script, ctx):
             read_since = True
         elif k == "reassign":
             v = op["view"]
-            setattr(obj, v, getattr(obj, v))      # feed the getter's own list back into the setter
-            ctx.log("reassign", v)
+            lst = getattr(obj, v)
+            if op.get("edit") is not None:
+                i = op["edit"] % n
+                np_ = shapes.gen_points(rng, 1, dim)[0]
+                nw = rng.pick([w for w in (0.5, 0.75, 1.5, 2.0, 3.0, 4.0) if w != W[i]])
+                if v == "weights":
+                    lst[i] = nw
+                    W = W[:i] + [nw] + W[i + 1:]
+                elif v == "ctrlpts":
+                    lst[i] = list(np_)
+                    P = P[:i] + [list(np_)] + P[i + 1:]
+                else:
+                    lst[i] = [c * nw for c in np_] + [nw]
+                    P = P[:i] + [list(np_)] + P[i + 1:]
+                    W = W[:i] + [nw] + W[i + 1:]
+                ctx.probe("getter_list_edited_in_place_and_written_back")
+                read_since = False
+            setattr(obj, v, lst)      # feed the getter's own list back into the setter
+            ctx.log("reassign", v, op.get("edit"))
             ctx.ops_executed += 1
             ctx.probe("getter_list_fed_back_into_setter")
         elif k == "convert":
